@@ -8,92 +8,18 @@ From Coq Require Import Lia Permutation Sorted.
 From Algo.C16 Require Import Model Spec ProofsList.
 Local Open Scope Z_scope.
 
-Section Laws.
+(** facts about one comparator that is a strict total order *)
+Section Order.
   Variable A : Type.
-  Variable eqb : A -> A -> bool.
   Variable cmp : A -> A -> Z.
-  Variable draw : nat -> nat.
-  Hypothesis eqb_spec : forall x y, eqb x y = true <-> x = y.
   Hypothesis cmp_eq : forall x y, cmp x y = 0 <-> x = y.
   Hypothesis cmp_anti : forall x y, cmp x y < 0 <-> 0 < cmp y x.
   Hypothesis cmp_trans : forall x y z, cmp x y < 0 -> cmp y z < 0 -> cmp x z < 0.
-
-  Notation lt := (lt A cmp).
-  Notation memb := (memb A eqb).
-  Notation hasb := (hasb A eqb cmp).
-  Notation vset := (vset A).
-  Notation s_add := (s_add A eqb).
-  Notation s_rem := (s_rem A eqb).
-  Notation s_adds := (s_adds A eqb).
-  Notation s_rems := (s_rems A eqb).
-  Notation repr := (repr A cmp).
-  Notation inv := (inv A cmp).
-  Notation set_equiv := (set_equiv A).
-
-  Lemma memb_In : forall l v, memb l v = true <-> In v l.
-  Proof.
-    intros l v. unfold Spec.memb. rewrite existsb_exists. split.
-    - intros (x & Hx & He). apply eqb_spec in He. now subst.
-    - intros H. exists v. split; [exact H|now apply eqb_spec].
-  Qed.
-
-  Lemma memb_false : forall l v, memb l v = false <-> ~ In v l.
-  Proof. intros. rewrite <- memb_In. destruct (memb l v); split; congruence. Qed.
-
-  Lemma memb_perm : forall l l' v, Permutation l l' -> memb l v = memb l' v.
-  Proof.
-    intros l l' v HP. apply Bool.eq_true_iff_eq. rewrite !memb_In.
-    split; apply Permutation_in; [exact HP|now symmetry].
-  Qed.
-
-  Lemma eqb_refl : forall x, eqb x x = true.
-  Proof. intros. now apply eqb_spec. Qed.
-
-  Lemma s_add_In : forall v S x, In x (s_add v S) <-> In x S \/ x = v.
-  Proof.
-    intros v S x. unfold s_add. destruct (memb S v) eqn:E.
-    - apply memb_In in E. split; [auto|]. intros [H| ->]; auto.
-    - rewrite in_app_iff. simpl. intuition.
-  Qed.
-
-  Lemma s_add_NoDup : forall v S, NoDup S -> NoDup (s_add v S).
-  Proof.
-    intros v S H. unfold s_add. destruct (memb S v) eqn:E; [exact H|].
-    apply memb_false in E.
-    apply (Permutation_NoDup (Permutation_cons_append S v)). now constructor.
-  Qed.
-
-  Lemma s_rem_In : forall v S x, In x (s_rem v S) <-> In x S /\ x <> v.
-  Proof.
-    intros v S x. unfold s_rem. rewrite filter_In. split; intros [H1 H2]; split; auto.
-    - intros ->. rewrite eqb_refl in H2. discriminate.
-    - destruct (eqb x v) eqn:E; [apply eqb_spec in E; congruence|reflexivity].
-  Qed.
-
-  Lemma s_rem_NoDup : forall v S, NoDup S -> NoDup (s_rem v S).
-  Proof. intros. now apply NoDup_filter. Qed.
-
-  Lemma s_adds_NoDup : forall vs S, NoDup S -> NoDup (s_adds vs S).
-  Proof. induction vs; simpl; intros; auto. apply IHvs. now apply s_add_NoDup. Qed.
-
-  Lemma s_rems_NoDup : forall vs S, NoDup S -> NoDup (s_rems vs S).
-  Proof. induction vs; simpl; intros; auto. apply IHvs. now apply s_rem_NoDup. Qed.
-
-  Lemma s_adds_In : forall vs S x, In x (s_adds vs S) <-> In x S \/ In x vs.
-  Proof.
-    induction vs as [|v vs IH]; simpl; intros S x; [intuition|].
-    rewrite IH, s_add_In. intuition.
-  Qed.
-
-  Lemma s_rems_In : forall vs S x, In x (s_rems vs S) <-> In x S /\ ~ In x vs.
-  Proof.
-    induction vs as [|v vs IH]; simpl; intros S x; [intuition|].
-    rewrite IH, s_rem_In. intuition.
-  Qed.
+  Notation lt := (ltc cmp).
 
   (** ** order facts *)
   Lemma lt_irrefl : forall x, ~ lt x x.
-  Proof. intros x H. unfold lt in H. rewrite (proj2 (cmp_eq x x) eq_refl) in H. lia. Qed.
+  Proof. intros x H. unfold ltc in H. rewrite (proj2 (cmp_eq x x) eq_refl) in H. lia. Qed.
 
   Lemma sorted_nth : forall l k1 k2 x1 x2, StronglySorted lt l ->
     nth_error l k1 = Some x1 -> nth_error l k2 = Some x2 -> (k1 < k2)%nat -> lt x1 x2.
@@ -170,56 +96,6 @@ Section Laws.
     destruct (Z_lt_le_dec (Z.of_nat k) i) as [H|H]; [apply (lt_irrefl v), (H1 k v Hk H)|apply (lt_irrefl v), (H2 k v Hk H)].
   Qed.
 
-  (** ** representation *)
-  Lemma repr_perm : forall k S l, repr k S l -> Permutation l S.
-  Proof. intros k S l [_ H]. destruct k; try (subst; reflexivity). tauto. Qed.
-
-  Lemma repr_NoDup : forall k S l, repr k S l -> NoDup l.
-  Proof. intros k S l H. eapply Permutation_NoDup; [symmetry; eapply repr_perm; eauto|apply H]. Qed.
-
-  Lemma repr_In : forall k S l x, repr k S l -> (In x l <-> In x S).
-  Proof. intros k S l x H. pose proof (repr_perm _ _ _ H) as HP. split; apply Permutation_in; [exact HP|now symmetry]. Qed.
-
-  Lemma repr_length : forall k S l, repr k S l -> length l = length S.
-  Proof. intros. eapply Permutation_length, repr_perm; eauto. Qed.
-
-  Lemma repr_nil : forall k, repr k [] [].
-  Proof. intros k. split; [constructor|]. destruct k; auto. split; constructor. Qed.
-
-  Lemma repr_linear : forall k S l, k <> Sorted -> repr k S l -> l = S.
-  Proof. intros k S l Hk [_ H]. destruct k; congruence. Qed.
-
-  Lemma repr_sorted : forall S l, repr Sorted S l -> StronglySorted lt l.
-  Proof. intros S l [_ [H _]]. exact H. Qed.
-
-  Lemma inv_intro : forall k l, NoDup l -> (k = Sorted -> StronglySorted lt l) -> inv (mkv k l).
-  Proof. intros k l H1 H2. split; [exact H1|]. destruct k; simpl; auto. Qed.
-
-  Lemma repr_inv : forall k S l, repr k S l -> inv (mkv k l).
-  Proof.
-    intros k S l H. apply inv_intro; [eapply repr_NoDup; eauto|]. intros ->. eapply repr_sorted; eauto.
-  Qed.
-
-  Lemma inv_repr_perm : forall k S l, inv (mkv k l) -> NoDup S -> Permutation l S -> (k <> Sorted -> l = S) -> repr k S l.
-  Proof.
-    intros k S l Hi HS HP Hl. split; [exact HS|]. destruct k; try (apply Hl; congruence).
-    split; [eapply repr_sorted; exact Hi|exact HP].
-  Qed.
-
-  (** Contains *)
-  Lemma hasb_repr : forall k S l v, repr k S l -> hasb k l v = memb S v.
-  Proof.
-    intros k S l v H. destruct k.
-    1,2: rewrite hasb_linear by congruence; assert (Hl : l = S) by (eapply repr_linear; [|exact H]; congruence); now rewrite Hl.
-    unfold ProofsList.hasb, find.
-    destruct (bsearch_top_sorted l v (repr_sorted _ _ H)) as (b & i & H1 & H2 & H3 & H4).
-    rewrite H1. simpl. rewrite (memb_perm S l v (Permutation_sym (repr_perm _ _ _ H))).
-    destruct b.
-    - specialize (H3 eq_refl). apply nth_error_In in H3. apply memb_In in H3. rewrite H3.
-      destruct (i =? -1) eqn:E; [apply Z.eqb_eq in E; lia|reflexivity].
-    - destruct (H4 eq_refl) as [Ha Hb]. simpl. symmetry. apply memb_false. eapply bsearch_false_notin; eauto.
-  Qed.
-
   Lemma ins_at_perm : forall p v (l : list A), Permutation (ins_at A p v l) (v :: l).
   Proof.
     intros p v l. unfold ins_at. rewrite <- Permutation_middle. now rewrite firstn_skipn.
@@ -246,6 +122,148 @@ Section Laws.
           -- rewrite Forall_forall in Hall. now apply Hall.
   Qed.
 
+  Lemma sorted_filter : forall (f : A -> bool) l, StronglySorted lt l -> StronglySorted lt (filter f l).
+  Proof.
+    induction 1 as [|a l Hs IH Hall]; simpl; [constructor|].
+    destruct (f a); [|exact IH]. constructor; [exact IH|].
+    rewrite Forall_forall in *. intros x Hx. apply filter_In in Hx. now apply Hall.
+  Qed.
+
+End Order.
+
+Section Laws.
+  Variable A : Type.
+  Variable eqb : A -> A -> bool.
+  Variable cmp : nat -> A -> A -> Z.
+  Variable draw : nat -> nat.
+  Hypothesis eqb_spec : forall x y, eqb x y = true <-> x = y.
+  Hypothesis cmp_eq : forall c x y, cmp c x y = 0 <-> x = y.
+  Hypothesis cmp_anti : forall c x y, cmp c x y < 0 <-> 0 < cmp c y x.
+  Hypothesis cmp_trans : forall c x y z, cmp c x y < 0 -> cmp c y z < 0 -> cmp c x z < 0.
+
+  Notation lt := (fun c => ltc (cmp c)).
+  Notation memb := (memb A eqb).
+  Notation hasb := (hasb A eqb cmp).
+  Notation vset := (vset A).
+  Notation s_add := (s_add A eqb).
+  Notation s_rem := (s_rem A eqb).
+  Notation s_adds := (s_adds A eqb).
+  Notation s_rems := (s_rems A eqb).
+  Notation repr := (repr A cmp).
+  Notation inv := (inv A cmp).
+  Notation set_equiv := (set_equiv A).
+
+  Lemma memb_In : forall l v, memb l v = true <-> In v l.
+  Proof.
+    intros l v. unfold Spec.memb. rewrite existsb_exists. split.
+    - intros (x & Hx & He). apply eqb_spec in He. now subst.
+    - intros H. exists v. split; [exact H|now apply eqb_spec].
+  Qed.
+
+  Lemma memb_false : forall l v, memb l v = false <-> ~ In v l.
+  Proof. intros. rewrite <- memb_In. destruct (memb l v); split; congruence. Qed.
+
+  Lemma memb_perm : forall l l' v, Permutation l l' -> memb l v = memb l' v.
+  Proof.
+    intros l l' v HP. apply Bool.eq_true_iff_eq. rewrite !memb_In.
+    split; apply Permutation_in; [exact HP|now symmetry].
+  Qed.
+
+  Lemma eqb_refl : forall x, eqb x x = true.
+  Proof. intros. now apply eqb_spec. Qed.
+
+  Lemma s_add_In : forall v S x, In x (s_add v S) <-> In x S \/ x = v.
+  Proof.
+    intros v S x. unfold s_add. destruct (memb S v) eqn:E.
+    - apply memb_In in E. split; [auto|]. intros [H| ->]; auto.
+    - rewrite in_app_iff. simpl. intuition.
+  Qed.
+
+  Lemma s_add_NoDup : forall v S, NoDup S -> NoDup (s_add v S).
+  Proof.
+    intros v S H. unfold s_add. destruct (memb S v) eqn:E; [exact H|].
+    apply memb_false in E.
+    apply (Permutation_NoDup (Permutation_cons_append S v)). now constructor.
+  Qed.
+
+  Lemma s_rem_In : forall v S x, In x (s_rem v S) <-> In x S /\ x <> v.
+  Proof.
+    intros v S x. unfold s_rem. rewrite filter_In. split; intros [H1 H2]; split; auto.
+    - intros ->. rewrite eqb_refl in H2. discriminate.
+    - destruct (eqb x v) eqn:E; [apply eqb_spec in E; congruence|reflexivity].
+  Qed.
+
+  Lemma s_rem_NoDup : forall v S, NoDup S -> NoDup (s_rem v S).
+  Proof. intros. now apply NoDup_filter. Qed.
+
+  Lemma s_adds_NoDup : forall vs S, NoDup S -> NoDup (s_adds vs S).
+  Proof. induction vs; simpl; intros; auto. apply IHvs. now apply s_add_NoDup. Qed.
+
+  Lemma s_rems_NoDup : forall vs S, NoDup S -> NoDup (s_rems vs S).
+  Proof. induction vs; simpl; intros; auto. apply IHvs. now apply s_rem_NoDup. Qed.
+
+  Lemma s_adds_In : forall vs S x, In x (s_adds vs S) <-> In x S \/ In x vs.
+  Proof.
+    induction vs as [|v vs IH]; simpl; intros S x; [intuition|].
+    rewrite IH, s_add_In. intuition.
+  Qed.
+
+  Lemma s_rems_In : forall vs S x, In x (s_rems vs S) <-> In x S /\ ~ In x vs.
+  Proof.
+    induction vs as [|v vs IH]; simpl; intros S x; [intuition|].
+    rewrite IH, s_rem_In. intuition.
+  Qed.
+
+  (** ** representation *)
+  Lemma repr_perm : forall k S l, repr k S l -> Permutation l S.
+  Proof. intros k S l [_ H]. destruct k; try (subst; reflexivity). apply H. Qed.
+
+  Lemma repr_NoDup : forall k S l, repr k S l -> NoDup l.
+  Proof. intros k S l H. eapply Permutation_NoDup; [symmetry; eapply repr_perm; eauto|apply H]. Qed.
+
+  Lemma repr_In : forall k S l x, repr k S l -> (In x l <-> In x S).
+  Proof. intros k S l x H. pose proof (repr_perm _ _ _ H) as HP. split; apply Permutation_in; [exact HP|now symmetry]. Qed.
+
+  Lemma repr_length : forall k S l, repr k S l -> length l = length S.
+  Proof. intros. eapply Permutation_length, repr_perm; eauto. Qed.
+
+  Lemma repr_nil : forall k, repr k [] [].
+  Proof. intros k. split; [constructor|]. destruct k; auto. split; constructor. Qed.
+
+  Lemma repr_linear : forall k S l, linear k -> repr k S l -> l = S.
+  Proof. intros k S l Hk [_ H]. destruct k; try (destruct Hk); assumption. Qed.
+
+  Lemma repr_sorted : forall c S l, repr (Sorted c) S l -> StronglySorted (ltc (cmp c)) l.
+  Proof. intros c S l [_ [H _]]. exact H. Qed.
+
+  Lemma inv_intro : forall k l, NoDup l -> (forall c, k = Sorted c -> StronglySorted (ltc (cmp c)) l) -> inv (mkv k l).
+  Proof. intros k l H1 H2. split; [exact H1|]. destruct k; simpl; auto. Qed.
+
+  Lemma repr_inv : forall k S l, repr k S l -> inv (mkv k l).
+  Proof.
+    intros k S l H. apply inv_intro; [eapply repr_NoDup; eauto|]. intros c ->. eapply repr_sorted; eauto.
+  Qed.
+
+  Lemma inv_repr_perm : forall k S l, inv (mkv k l) -> NoDup S -> Permutation l S -> (linear k -> l = S) -> repr k S l.
+  Proof.
+    intros k S l Hi HS HP Hl. split; [exact HS|]. destruct k; try (apply Hl; exact I).
+    split; [eapply repr_sorted; exact Hi|exact HP].
+  Qed.
+
+  (** Contains *)
+  Lemma hasb_repr : forall k S l v, repr k S l -> hasb k l v = memb S v.
+  Proof.
+    intros k S l v H. destruct k.
+    1,2: rewrite hasb_linear by exact I; assert (Hl : l = S) by (eapply repr_linear; [|exact H]; exact I); now rewrite Hl.
+    unfold ProofsList.hasb, find.
+    destruct (bsearch_top_sorted A (cmp c) (cmp_eq c) (cmp_anti c) (cmp_trans c) l v (repr_sorted _ _ _ H)) as (b & i & H1 & H2 & H3 & H4).
+    rewrite H1. simpl. rewrite (memb_perm S l v (Permutation_sym (repr_perm _ _ _ H))).
+    destruct b.
+    - specialize (H3 eq_refl). apply nth_error_In in H3. apply memb_In in H3. rewrite H3.
+      destruct (i =? -1) eqn:E; [apply Z.eqb_eq in E; lia|reflexivity].
+    - destruct (H4 eq_refl) as [Ha Hb]. simpl. symmetry. apply memb_false. eapply bsearch_false_notin; eauto.
+  Qed.
+
   Lemma ins_at_end : forall v (l : list A), ins_at A (length l) v l = l ++ [v].
   Proof. intros. unfold ins_at. now rewrite firstn_all, skipn_all. Qed.
 
@@ -260,12 +278,12 @@ Section Laws.
     assert (Hnd : ~ In v S -> NoDup (S ++ [v])).
     { intros Hn. apply (Permutation_NoDup (Permutation_cons_append S v)). constructor; [exact Hn|apply H]. }
     destruct k.
-    1,2: rewrite add_plan_linear by congruence; assert (Hl : l = S) by (eapply repr_linear; [|exact H]; congruence); subst l;
+    1,2: rewrite add_plan_linear by exact I; assert (Hl : l = S) by (eapply repr_linear; [|exact H]; exact I); subst l;
          destruct (memb S v) eqn:E; (eexists; split; [reflexivity|]);
          [ now apply memb_In
          | apply memb_false in E; split; [exact E|]; rewrite ins_at_end; split; [now apply Hnd|reflexivity] ].
     unfold add_plan.
-    destruct (bsearch_top_sorted l v (repr_sorted _ _ H)) as (b & i & H1 & H2 & H3 & H4).
+    destruct (bsearch_top_sorted A (cmp c) (cmp_eq c) (cmp_anti c) (cmp_trans c) l v (repr_sorted _ _ _ H)) as (b & i & H1 & H2 & H3 & H4).
     rewrite H1. simpl. destruct b.
     - eexists; split; [reflexivity|]. apply (repr_In _ _ _ v H). eapply nth_error_In, H3; reflexivity.
     - destruct (i <? 0) eqn:E; [apply Z.ltb_lt in E; lia|].
@@ -301,7 +319,7 @@ Section Laws.
       match p with None => ~ In v S | Some i => nth_error l i = Some v end.
   Proof.
     intros k S l v H. unfold remove_plan.
-    assert (Hlin : k <> Sorted -> exists p, (i <- Ok (lfind A eqb l v 0) ;;
+    assert (Hlin : linear k -> exists p, (i <- Ok (lfind A eqb l v 0) ;;
         (if i =? -1 then Ok None else if i <? 0 then Panic SliceBounds else Ok (Some (Z.to_nat i)))) = Ok p /\
         match p with None => ~ In v S | Some i => nth_error l i = Some v end).
     { intros Hk. pose proof (repr_linear _ _ _ Hk H) as ->. simpl.
@@ -313,8 +331,8 @@ Section Laws.
         eexists; split; [reflexivity|].
         destruct (lfind_nth A eqb S v 0 ltac:(lia) E) as (m & Hm & He & _).
         apply eqb_spec in He. subst m. now rewrite Z.sub_0_r in Hm. }
-    destruct k; [apply Hlin; congruence|apply Hlin; congruence|].
-    unfold find. destruct (bsearch_top_sorted l v (repr_sorted _ _ H)) as (b & i & H1 & H2 & H3 & H4).
+    destruct k; [apply Hlin; exact I|apply Hlin; exact I|].
+    unfold find. destruct (bsearch_top_sorted A (cmp c) (cmp_eq c) (cmp_anti c) (cmp_trans c) l v (repr_sorted _ _ _ H)) as (b & i & H1 & H2 & H3 & H4).
     rewrite H1. simpl. destruct b.
     - destruct (i =? -1) eqn:E; [apply Z.eqb_eq in E; lia|].
       destruct (i <? 0) eqn:E0; [apply Z.ltb_lt in E0; lia|].
@@ -347,13 +365,6 @@ Section Laws.
       + simpl. f_equal. now apply IH.
   Qed.
 
-  Lemma sorted_filter : forall (f : A -> bool) l, StronglySorted lt l -> StronglySorted lt (filter f l).
-  Proof.
-    induction 1 as [|a l Hs IH Hall]; simpl; [constructor|].
-    destruct (f a); [|exact IH]. constructor; [exact IH|].
-    rewrite Forall_forall in *. intros x Hx. apply filter_In in Hx. now apply Hall.
-  Qed.
-
   Lemma perm_filter : forall (f : A -> bool) l l', Permutation l l' -> Permutation (filter f l) (filter f l').
   Proof.
     induction 1; simpl; auto.
@@ -365,7 +376,7 @@ Section Laws.
   Lemma repr_rem : forall k S l v, repr k S l -> repr k (s_rem v S) (s_rem v l).
   Proof.
     intros k S l v H. split; [apply s_rem_NoDup, H|]. destruct k.
-    1,2: assert (Hl : l = S) by (eapply repr_linear; [|exact H]; congruence); now rewrite Hl.
+    1,2: assert (Hl : l = S) by (eapply repr_linear; [|exact H]; exact I); now rewrite Hl.
     split; [apply sorted_filter; eapply repr_sorted; eauto|apply perm_filter; eapply repr_perm; eauto].
   Qed.
 
@@ -397,14 +408,14 @@ Section Laws.
 
   Lemma vall_repr : forall k S l t, repr k S l ->
     exists r t', vall A draw (mkv k l) t = Ok (r, t') /\ Permutation r S /\
-      (k = Stable -> r = S) /\ (k = Sorted -> r = l /\ StronglySorted lt r) /\ (k <> Unordered -> t' = t).
+      (k = Stable -> r = S) /\ (forall c, k = Sorted c -> r = l /\ StronglySorted (ltc (cmp c)) r) /\ (k <> Unordered -> t' = t).
   Proof.
     intros k S l t H. unfold vall. simpl.
     destruct (all_spec A draw k l t) as (r & t' & H1 & H2 & H3).
     exists r, t'. split; [exact H1|]. split; [rewrite H2; eapply repr_perm; eauto|].
     split; [|split].
-    - intros ->. destruct (H3 ltac:(congruence)) as [-> _]. apply (repr_linear Stable); [congruence|exact H].
-    - intros ->. destruct (H3 ltac:(congruence)) as [-> _]. split; [reflexivity|eapply repr_sorted; eauto].
+    - intros ->. destruct (H3 ltac:(congruence)) as [-> _]. apply (repr_linear Stable); [exact I|exact H].
+    - intros c ->. destruct (H3 ltac:(congruence)) as [-> _]. split; [reflexivity|eapply repr_sorted; eauto].
     - intros Hk. now destruct (H3 Hk).
   Qed.
 
@@ -563,7 +574,7 @@ Section Laws.
   Theorem vunion_spec : forall (s : vset) sets t, inv s -> Forall inv sets ->
     exists u t', vunion A eqb cmp draw s sets t = Ok (u, t') /\ inv u /\ vk u = vk s /\
       (forall x, In x (vm u) <-> In x (vm s) \/ exists r, In r sets /\ In x (vm r)) /\
-      (vk s <> Sorted -> exists ext, vm u = vm s ++ ext).
+      (linear (vk s) -> exists ext, vm u = vm s ++ ext).
   Proof.
     intros [k l] sets t H Hall. unfold vunion, vclone. simpl.
     destruct (vunion_loop_repr sets k l l t H Hall) as (l' & S' & t' & H1 & R & Hin & (ext & He)).
@@ -601,7 +612,7 @@ Section Laws.
   Theorem vdifference_spec : forall (s : vset) sets t, inv s -> Forall inv sets ->
     exists u t', vdifference A eqb cmp draw s sets t = Ok (u, t') /\ inv u /\ vk u = vk s /\
       (forall x, In x (vm u) <-> In x (vm s) /\ forall r, In r sets -> ~ In x (vm r)) /\
-      (vk s <> Sorted -> exists f, vm u = filter f (vm s)).
+      (linear (vk s) -> exists f, vm u = filter f (vm s)).
   Proof.
     intros [k l] sets t H Hall. unfold vdifference, vclone. simpl.
     destruct (vdiff_loop_repr sets k l l t H Hall) as (l' & S' & t' & H1 & R & Hin & (f & He)).
@@ -650,7 +661,7 @@ Section Laws.
   Theorem vintersection_spec : forall (s : vset) sets, inv s -> Forall inv sets ->
     exists u, vintersection A eqb cmp s sets = Ok u /\ inv u /\ vk u = vk s /\
       (forall x, In x (vm u) <-> In x (vm s) /\ forall r, In r sets -> In x (vm r)) /\
-      (vk s <> Sorted -> exists f, vm u = filter f (vm s)).
+      (linear (vk s) -> exists f, vm u = filter f (vm s)).
   Proof.
     intros [k l] sets H Hall. unfold vintersection, vcloneEmpty. simpl.
     destruct (vinter_loop_repr l sets k [] [] (repr_nil k)) as (l' & H1 & R).
@@ -667,7 +678,7 @@ Section Laws.
   Theorem vselectMatch_spec : forall (s : vset) p, inv s ->
     exists u, vselectMatch A eqb cmp s p = Ok u /\ inv u /\ vk u = vk s /\
       (forall x, In x (vm u) <-> In x (vm s) /\ p x = true) /\
-      (vk s <> Sorted -> vm u = filter p (vm s)).
+      (linear (vk s) -> vm u = filter p (vm s)).
   Proof.
     intros [k l] p H. unfold vselectMatch, vcloneEmpty. simpl.
     destruct (vadd_repr (filter p l) k [] [] (repr_nil k)) as (l' & H1 & R).
@@ -700,7 +711,7 @@ Section Laws.
       visEmpty A (mkv k l) = Nat.eqb (length S) 0 /\
       (forall t, exists r t', vall A draw (mkv k l) t = Ok (r, t') /\ Permutation r S /\
                               (k = Stable -> r = S) /\
-                              (k = Sorted -> StronglySorted lt r)) /\
+                              (forall c, k = Sorted c -> StronglySorted (ltc (cmp c)) r)) /\
       (forall p, vanyMatch A (mkv k l) p = existsb p S) /\
       (forall p, vallMatch A (mkv k l) p = forallb p S) /\
       (forall p, match vfirstMatch A (mkv k l) p with
@@ -715,7 +726,7 @@ Section Laws.
     split; [unfold visEmpty; simpl; now rewrite (repr_length k S l H)|].
     split.
     { intros t. destruct (vall_repr k S l t H) as (r & t' & H1 & H2 & H3 & H4 & _).
-      exists r, t'. repeat split; auto. intros Hk. now destruct (H4 Hk). }
+      exists r, t'. repeat split; auto. intros c Hk. now destruct (H4 c Hk). }
     split; [intros p; apply (existsb_perm p l S HP)|].
     split; [intros p; apply (forallb_perm p l S HP)|].
     intros p. unfold vfirstMatch. simpl. pose proof (first_match_spec p l) as Hf.
